@@ -663,8 +663,8 @@ def run_wire(ctx, role, cipher, mac, comp, how, offset, mask, record=True):
         for _ in range(200):
             if not tested.is_active():
                 break
-            if link.wait_quiescent(0.02, settle=2) and how in ("trunc",):
-                break
+            if link.wait_quiescent(0.02, settle=3):
+                break  # the receiver sits in recv waiting for bytes that will never come
             threading.Event().wait(0.01)
         if tested.is_active():
             # e.g. truncation: the receiver is waiting for more bytes - end the stream
@@ -772,7 +772,8 @@ def run(ctx):
             msgs.append((5, bytes([6]) + R.string(b"ssh-userauth")))
         for i, m in ms:
             t, f = authc_t[i]
-            msgs.append((5 if (t == 6 and not accept_first) else 50, mutate(t, f, m)))
+            # without a SERVICE_ACCEPT the client never sends its USERAUTH_REQUEST: deliver while it waits (wrong stage)
+            msgs.append((50 if accept_first else 5, mutate(t, f, m)))
         run_authc(ctx, method, msgs, early=[ext_info_payload(*e) for e in early], service_transport=service_tr)
 
     def body_auths(c):
@@ -815,7 +816,7 @@ def run(ctx):
     tagged = []
     for f in fams:
         tagged += [strategies[f].map(lambda c, f=f: (f, c))] * weights[f]
-    ctx.explore(st.one_of(*tagged), lambda fc: bodies[fc[0]](fc[1]), ctx.scale(700, 9000), shrink=False, seed_offset=1)
+    ctx.explore(st.one_of(*tagged), lambda fc: bodies[fc[0]](fc[1]), ctx.scale(520, 9000), shrink=False, seed_offset=1)
 
 
 def replay(ctx, case):
